@@ -79,6 +79,30 @@ Example c07_async_ex :
   end.
 Proof. vm_compute. auto. Qed.
 
+(* the composed payload source of the tokio loop on a concrete run (a computation, not a theorem: see DESIGN section 10):
+   AsyncReadWriteTake(AsyncReadWriteChain(buffer "bc", transport "de" that pends first), 3) polled with 2-byte ReadBufs gives
+   "bc", Pending, "d", then end of payload with "e" left unread in the transport *)
+Example c07_async_drain_ex :
+  let w0 := {| at_rem := 3; at_rw := achain_new {| mem := [97; 98; 99; 0]; read_index := 1; write_index := 3 |} ([100; 101], [true; false; false]) |} in
+  let poll := fun w => atake_poll_read true (ACH2 true (AFB true) marked_rd) (rb_new (repeat 0 2)) w in
+  match poll w0 with
+  | Val (PReady (Ok _), b1) w1 => rb_filled_bytes b1 = [98; 99] /\
+      match poll w1 with
+      | Val (PPending, _) w2 =>
+          match poll w2 with
+          | Val (PReady (Ok _), b3) w3 => rb_filled_bytes b3 = [100] /\ at_rem w3 = 0 /\
+              match poll w3 with
+              | Val (PReady (Ok _), b4) w4 => rb_filled_bytes b4 = [] /\ fst (ac_rw (at_rw w4)) = [101]
+              | _ => False
+              end
+          | _ => False
+          end
+      | _ => False
+      end
+  | _ => False
+  end.
+Proof. vm_compute. auto. Qed.
+
 Print Assumptions c07_drain.
 Print Assumptions c07_request.
 Print Assumptions c07_chain_is_source.
